@@ -14,6 +14,7 @@ import (
 	"reflect"
 	"regexp"
 	"runtime"
+	"sort"
 	"strings"
 	"testing"
 
@@ -80,14 +81,17 @@ func c03Classes(c c03Case) []string {
 		out = append(out, "c03.gomod_wildcard_rewrites_replacement")
 	}
 	if c.Format == "requirements" {
+		if layouts.ReqHasLongInclude(c.Records) {
+			out = append(out, "c03.requirements_long_include")
+		}
 		for _, r := range c.Records {
-			if classReqNameRegex(r) {
+			if r.A("kind") == "" && classReqNameRegex(r) {
 				out = append(out, "c03.requirements_name_regex")
 				break
 			}
 		}
 		for _, r := range c.Records {
-			if classReqDashC(r) {
+			if r.A("kind") == "" && classReqDashC(r) {
 				out = append(out, "c03.requirements_dash_c")
 				break
 			}
@@ -104,9 +108,19 @@ func excludeKnownC03(col *ev.Collector, format string, recs []layouts.Record) []
 	}
 	used := map[string]bool{}
 	for _, r := range recs {
-		used[layouts.NameKey(r.Name)] = true
+		if r.A("kind") == "" {
+			used[layouts.NameKey(r.Name)] = true
+		}
 	}
 	for i := range recs {
+		if recs[i].A("kind") != "" {
+			// an option / include line, not a package
+			if col.IsKnown("c03.requirements_long_include") && recs[i].A("kind") == "include" && strings.HasPrefix(recs[i].A("form"), "long") {
+				col.Excluded("c03.requirements_long_include")
+				recs[i] = withoutAttr(recs[i], "form")
+			}
+			continue
+		}
 		if col.IsKnown("c03.requirements_dash_c") && classReqDashC(recs[i]) {
 			col.Excluded("c03.requirements_dash_c")
 			recs[i].Name = strings.ReplaceAll(recs[i].Name, "-C", "-c")
@@ -125,6 +139,10 @@ func excludeKnownC03(col *ev.Collector, format string, recs []layouts.Record) []
 	seen := map[string]bool{}
 	out := recs[:0]
 	for _, r := range recs {
+		if r.A("kind") != "" {
+			out = append(out, r)
+			continue
+		}
 		k := layouts.NameKey(r.Name)
 		if seen[k] {
 			continue
@@ -204,32 +222,63 @@ func checkOneLayout(c c03Case, l layouts.Layout, which string, shapes *[]string)
 	content := layouts.Render(c.Format, c.Records, l)
 	*shapes = append(*shapes, layouts.ShapeClasses(c.Format, c.Records, l, content)...)
 	path := layouts.Path(c.Format, l)
-	inv, xerr, herr := extractBytes(ex, path, content)
+	neighbours := layouts.Files(c.Format, c.Records, l)
+	inv, xerr, herr := extractBytesFS(ex, path, content, neighbours, nil)
 	if herr != nil {
 		return nil, fmt.Errorf("%s (%s layout): %v", c.Format, which, herr)
 	}
-	if xerr != nil {
-		return nil, fmt.Errorf("%s (%s layout): Extract(%s) returned an error on a well-formed file: %v\n--- file ---\n%s", c.Format, which, path, xerr, clip(content, 3000))
+	shown := func() string {
+		s := "\n--- file " + path + " ---\n" + clip(content, 3000)
+		var names []string
+		for p := range neighbours {
+			names = append(names, p)
+		}
+		sort.Strings(names)
+		for _, p := range names {
+			s += "\n--- file " + p + " ---\n" + clip(neighbours[p], 1500)
+		}
+		return s
 	}
+	if xerr != nil {
+		return nil, fmt.Errorf("%s (%s layout): Extract(%s) returned an error on a well-formed file: %v%s", c.Format, which, path, xerr, shown())
+	}
+	wantLoc := layouts.ExpectedLocated(c.Format, c.Records, l)
 	want := layouts.Expected(c.Format, c.Records, l)
 	// cross-check of the expectation: an independent reader of the rendered bytes that follows
 	// the format's documentation must list what the generator says it wrote
-	if ref, ok, rerr := layouts.ReferenceRead(c.Format, content); ok {
+	all := map[string][]byte{path: content}
+	for p, b := range neighbours {
+		all[p] = b
+	}
+	if ref, ok, rerr := layouts.ReferenceReadFiles(c.Format, path, all); ok {
 		if rerr != nil {
-			return nil, fmt.Errorf("harness: %s (%s layout): the reference reader rejects the rendered file: %v\n--- file ---\n%s", c.Format, which, rerr, clip(content, 3000))
+			return nil, fmt.Errorf("harness: %s (%s layout): the reference reader rejects the rendered file: %v%s", c.Format, which, rerr, shown())
 		}
-		if d := diffPairs(want, ref); d != "" {
-			return nil, fmt.Errorf("harness: %s (%s layout): generator expectation and reference reader disagree: %s\n--- file ---\n%s", c.Format, which, d, clip(content, 3000))
+		refPairs := make([]layouts.Pair, 0, len(ref))
+		locsDecided := false
+		for _, e := range ref {
+			refPairs = append(refPairs, e.Pair)
+			locsDecided = locsDecided || e.Locations != nil
+		}
+		if d := diffPairs(want, layouts.SortPairs(refPairs)); d != "" {
+			return nil, fmt.Errorf("harness: %s (%s layout): generator expectation and reference reader disagree: %s%s", c.Format, which, d, shown())
+		}
+		if locsDecided {
+			if d := diffLocated(wantLoc, ref); d != "" {
+				return nil, fmt.Errorf("harness: %s (%s layout): generator expectation and reference reader disagree on locations: %s%s", c.Format, which, d, shown())
+			}
 		}
 	}
 	got := pairsOfPackages(inv.Packages)
 	if d := diffPairs(want, got); d != "" {
-		return nil, fmt.Errorf("%s (%s layout): file lists %d packages, Extract(%s) reported %d: %s\n--- file ---\n%s", c.Format, which, len(want), path, len(got), d, clip(content, 3000))
+		return nil, fmt.Errorf("%s (%s layout): file lists %d packages, Extract(%s) reported %d: %s%s", c.Format, which, len(want), path, len(got), d, shown())
 	}
+	gotLoc := make([]layouts.Located, 0, len(inv.Packages))
 	for _, p := range inv.Packages {
-		if len(p.Locations) != 1 || p.Locations[0] != path {
-			return nil, fmt.Errorf("%s (%s layout): package %q@%q has Locations %q, want [%q]", c.Format, which, p.Name, p.Version, p.Locations, path)
-		}
+		gotLoc = append(gotLoc, layouts.Located{Pair: layouts.Pair{Name: p.Name, Version: p.Version}, Locations: p.Locations})
+	}
+	if d := diffLocated(wantLoc, gotLoc); d != "" {
+		return nil, fmt.Errorf("%s (%s layout): packages are reported at other locations than the files that list them: %s%s", c.Format, which, d, shown())
 	}
 	return got, nil
 }
@@ -293,6 +342,35 @@ func propC03(c c03Case) (ev.Outcome, error) {
 	}
 	classes = append(classes, shapes...)
 	return ev.Outcome{NonTrivial: n >= 2 && (len(d1) > 0 || len(d2) > 0), Classes: uniqStr(classes)}, nil
+}
+
+// diffLocated describes the multiset difference of (name, version, locations) ("" when equal).
+func diffLocated(want, got []layouts.Located) string {
+	key := func(e layouts.Located) string {
+		return fmt.Sprintf("%q@%q at %q", e.Name, e.Version, e.Locations)
+	}
+	cnt := map[string]int{}
+	for _, e := range want {
+		cnt[key(e)]++
+	}
+	for _, e := range got {
+		cnt[key(e)]--
+	}
+	var missing, extra []string
+	for k, c := range cnt {
+		for ; c > 0; c-- {
+			missing = append(missing, k)
+		}
+		for ; c < 0; c++ {
+			extra = append(extra, k)
+		}
+	}
+	if len(missing) == 0 && len(extra) == 0 {
+		return ""
+	}
+	sort.Strings(missing)
+	sort.Strings(extra)
+	return fmt.Sprintf("expected but not reported: [%s]; reported but not expected: [%s]", strings.Join(missing, ", "), strings.Join(extra, ", "))
 }
 
 func uniqStr(s []string) []string {
